@@ -47,6 +47,9 @@ def plan(tier):
         I.append(inst(f"arcs[{which},single pair]", 'harness.c18', 'arcs', dict(which=which, batch=1), weight=40, timeout_s=900, opts=dict(max_paths=1024)))
         if not (q and which == 'arc_include'):
             I.append(inst(f"arcs[{which},batch of 2]", 'harness.c18', 'arcs', dict(which=which, batch=2), weight=100, timeout_s=1500, opts=dict(max_paths=(600 if q else 4096))))
+    # short_arc on its whole documented input range (-2pi, 2pi): the same directions given with windings
+    for w in [(1, 0), (0, 1), (-1, 0), (0, -1), (-1, 1), (1, -1), (1, 1), (-1, -1)]:
+        I.append(inst(f"arcs[short_arc,single pair,windings={w}]", 'harness.c18', 'arcs', dict(which='short_arc', batch=1, wind=w), weight=20, timeout_s=900, opts=dict(max_paths=1024)))
     return dict(
         instances=I,
         explanation=("bounded symbolic verification: indefinite_orthogonalize (all signatures, symbolic rows in general position; also a symbolic congruent "
